@@ -190,7 +190,9 @@ func (e *Enc) onStack(fc *fctx, f *ssa.Function) bool {
 // havocCall: unknown effect limited to the callee's computed write set.
 func (e *Enc) havocCall(cur *cursor, v ssa.Value, callee *ssa.Function, sig *types.Signature) {
 	eff := e.m.funcEffects(callee)
+	pre := cur.st.clone()
 	e.havocEffects(cur.st, eff, cur.guard)
+	e.preservePrivateSlices(cur, pre)
 	e.setResults(cur, v, sig, e.freshResults(cur, sig, "ret_"+callee.Name()))
 }
 
@@ -509,6 +511,7 @@ func (e *Enc) applyContractSig(cur *cursor, v ssa.Value, name string, callee *ss
 	for _, g := range ct.Updates {
 		cur.st.ghost[g] = e.fresh(g, e.ghostSort(g))
 	}
+	e.preservePrivateSlices(cur, pre)
 	results := e.freshResults(cur, sig, "ret_"+sanitize(name))
 	if ct.Pure && (len(ct.Ensures) == 0 || ct.Opts["constant"] != "") && sig.Results().Len() > 0 {
 		// opaque pure function: deterministic in its arguments
@@ -755,7 +758,36 @@ func (e *Enc) siteClauses(cur *cursor, callee string, args []Val, pos token.Pos)
 				sc.vars[fmt.Sprintf("arg%d", i)] = SV{T: a.T, Ty: a.Ty}
 			}
 		}
-		phi := e.specBool(sc, cl.Expr)
+		var phi string
+		if cl.IfInScope {
+			// translate on a scratch copy of the error list: out-of-scope locals make the clause inapplicable here
+			nUns := len(e.unsupported)
+			nItems := len(e.items)
+			savedGuard := sc.guard
+			sc.guard = "" // trial translation: no side assumptions
+			phi = e.specBool(sc, cl.Expr)
+			sc.guard = savedGuard
+			if len(sc.errs) == 0 {
+				phi = e.specBool(sc, cl.Expr)
+			} else {
+				e.items = e.items[:nItems] // (declarations made meanwhile are harmless and stay)
+			}
+			if len(sc.errs) > 0 {
+				onlyScope := false
+				for _, m := range sc.errs {
+					if strings.Contains(m, "unknown identifier") {
+						onlyScope = true // (later type errors are consequences of the placeholder)
+					}
+				}
+				if onlyScope {
+					e.unsupported = e.unsupported[:nUns]
+					continue
+				}
+			}
+		} else {
+			phi = e.specBool(sc, cl.Expr)
+		}
+		cl.Applied++
 		if cl.Kind == "assume" {
 			e.assume(cur.guard, phi)
 			e.explicitAssumes[fmt.Sprintf("%s: %s [before %s in %s]", clauseLabel(cl), cl.Src, cl.Site, e.topName)] = true
@@ -980,6 +1012,12 @@ func (m *Model) verifyFunc(name string, ct *Contract) (*Enc, error) {
 	}
 	if len(rets) == 0 {
 		e.notes = append(e.notes, "function has no reachable return")
+	}
+	for _, cl := range ct.Asserts {
+		if cl.Site != "" && cl.Applied == 0 {
+			e.unsupportedf("contract: site clause %q (@ %s) was not applied at any call site", clauseLabel(cl), cl.Site)
+		}
+		cl.Applied = 0
 	}
 	return e, nil
 }
